@@ -434,6 +434,11 @@ def run_trip_impl(case):
                     if case.get("decoy") and noops and not plugin.trip_ongoing:
                         create_dispatcher(proto).unregister_handle_telemetry(noops.pop(0))
                     plugin.initiate_random_trip()
+                    if case.get("mute") == "during" and not muted:
+                        # a foreign INTERRUPTing telemetry handler appears while the first trip is under way; the very next
+                        # operation starts the trip again, which puts the trip's own hook in front of it
+                        muted.append(lambda instance, telemetry: DispatchReturn.INTERRUPT)
+                        create_dispatcher(proto).register_handle_telemetry(muted[-1])
                 elif op[0] == "finish":
                     was = plugin.trip_ongoing
                     plugin.finish_random_trip()
@@ -442,7 +447,7 @@ def run_trip_impl(case):
                         # when the next one begins): the chain keeps its length while its content changes
                         noops.append(lambda instance, telemetry: DispatchReturn.CONTINUE)
                         create_dispatcher(proto).register_handle_telemetry(noops[-1])
-                    if case.get("mute") and was and not muted:
+                    if case.get("mute") is True and was and not muted:
                         # ... or a filter that stays for good and keeps telemetry from the protocol's own method (INTERRUPT):
                         # the hook of a LATER trip is registered after it, hence runs before it
                         muted.append(lambda instance, telemetry: DispatchReturn.INTERRUPT)
